@@ -69,7 +69,11 @@ NAMES = [n for n in CONFIGS if not n.startswith("Elem(")]     # the elementary-s
 ELEM_PROBES = [dict(config="Elem(1,median)", y=[0.0, 1.0, 2.0, 1.0, 3.0], cols=[[0.5, 1.0, 2.5, 1.5, 1.0]], w=None, two_d=False),
                dict(config="Elem(1,median)", y=[1.0, 1.0, 0.0, 2.0], cols=[[1.0, 0.0, 1.0, 3.0]], w=None, two_d=False),
                dict(config="Elem(1,median)", y=[2.0, 1.0], cols=[[0.0, 1.0], [1.0, 1.0]], w=None, two_d=True),
-               dict(config="Elem(1,quantile,0.5)", y=[1.0, 1.0, 0.0, 2.0], cols=[[1.0, 0.0, 1.0, 3.0]], w=None, two_d=False)]
+               dict(config="Elem(1,quantile,0.5)", y=[1.0, 1.0, 0.0, 2.0], cols=[[1.0, 0.0, 1.0, 3.0]], w=None, two_d=False),
+               # forecasts that differ only from the seventh significant digit on are NOT constant (1e-7 relative >> the 1e-9 tie policy)
+               dict(config="SquaredError", y=[0.0, 1.0, 0.0, 1.0, 1.0, 0.0, 1.0, 1.0], cols=[[0.5 + 1e-7 * k for k in range(8)]], w=None, two_d=False),
+               dict(config="PoissonDeviance", y=[0.0, 2.0, 1.0, 3.0, 1.0, 4.0], cols=[[1.5 + 2e-7 * k for k in range(6)]], w=[1.0, 2.0, 1.0, 1.0, 2.0, 1.0], two_d=False),
+               dict(config="PinballLoss(0.25)", y=[0.0, 2.0, 1.0, 3.0, 1.0, 4.0], cols=[[1.5 + 2e-7 * k for k in range(6)], [1.0, 1.0, 2.0, 2.0, 3.0, 3.0]], w=None, two_d=True)]
 
 
 def make_sf(name):
@@ -713,10 +717,17 @@ def judge_case(d, seed=0):
     def near_tied(c):
         s_ = sorted(set(c))
         return any(b - a <= 1e-9 * max(1.0, abs(a), abs(b)) for a, b in zip(s_, s_[1:]))
-    for nm, fn in (("2x+1", lambda v: 2 * v + 1), ("x^3", lambda v: v ** 3), ("exp", math.exp)):
+    for nm, fn in (("2x+1", lambda v: 2 * v + 1), ("x^3", lambda v: v ** 3), ("exp", math.exp), ("spread to [0.25, 0.75]", None)):
         if any(near_tied(c) for c in cols):
             break
-        tc = [[fn(v) for v in c] for c in cols]
+        if fn is None:
+            # strictly increasing per column: the smallest forecast goes to 0.25, the largest to 0.75 (inside the domain of
+            # every score); forecasts that agree to many digits are pulled apart
+            if any(max(c) == min(c) for c in cols):
+                continue
+            tc = [[0.25 + 0.5 * (v - min(c)) / (max(c) - min(c)) for v in c] for c in cols]
+        else:
+            tc = [[fn(v) for v in c] for c in cols]
         if any(near_tied(c) for c in tc):
             continue
         keep = all(all((a < b) == (fa < fb) and (a == b) == (fa == fb) for a, fa in zip(c, t) for b, fb in zip(c, t))
